@@ -62,6 +62,9 @@ REG = {
  'C19': ('exploration', 'recorded runs of plain vs. instrumented pipelines (licence on/off) validated by TLC against a TLA+ acceptor (Prom.tla)',
          'Prom.tla keeps the counters the definition names (subscriptions, notifications in/out, lag observations, per-operator processing-time observations) from the events of a plain run with counting probes and requires the instrumented runs to be observationally identical and the exported metrics to equal those counters; nothing may be exported with the licence off.',
          'exploration: seeded random chains (Pipe1..Pipe5); requires the verif-only licence-bypass setter', '6/C19'),
+ 'C13': ('exploration', 'scenarios generated by the TLA+-driven drivers (free-running with yield hooks, park-mode schedule replay) executed under the Go race detector',
+         'A data race is a property of the memory accesses of the compiled program: no API-level trace exposes it, so the specification cannot decide it. Its role is the one the property names: it generates and bounds the concurrent scenarios (all direction-B drivers and the park-mode schedule replay used for C02 C03 C05 C06 C10 C11, plus hand-off, timed and rate-limit drivers); the harness is built with -race (its own event log switched off so that it adds no happens-before edges) and the Go race detector is the oracle. The Level-2 model Detach.tla predicts the one known report (close vs. send on the hand-off channel).',
+         'exploration with an external oracle: only races on executed schedules are seen', '6/C13 and 7'),
 }
 NA_REASON = 'check not built yet (framework under construction); planned, see DESIGN.md section 6'
 
